@@ -10,6 +10,7 @@ package verifrt
 // further operation of the dead process takes effect.
 
 import (
+	"hash"
 	"io/fs"
 	"path"
 	"sort"
@@ -280,4 +281,41 @@ func Glob(pattern string) ([]string, error) {
 		}
 	}
 	return out, nil
+}
+
+func (f *File) Stat() (fs.FileInfo, error) { return OsStat(f.path) }
+
+// ---- crypto/sha1 stand-in (engine only; crypto is not interpreted): a deterministic 160-bit
+// FNV-style digest. Assumed of the real thing only that distinct inputs give distinct digests
+// for the handful of names hashed in a harness. Natively the real sha1 is used.
+
+type fakeSHA1 struct{ data []byte }
+
+func NewSHA1() *fakeSHA1 { return &fakeSHA1{} }
+
+// NewSHA1H has the signature of sha1.New.
+func NewSHA1H() hash.Hash { return &fakeSHA1{} }
+
+func (h *fakeSHA1) Write(p []byte) (int, error) { h.data = append(h.data, p...); return len(p), nil }
+func (h *fakeSHA1) Sum(b []byte) []byte {
+	s := SHA1Sum(h.data)
+	return append(b, s[:]...)
+}
+func (h *fakeSHA1) Reset()         { h.data = nil }
+func (h *fakeSHA1) Size() int      { return 20 }
+func (h *fakeSHA1) BlockSize() int { return 64 }
+
+func SHA1Sum(data []byte) [20]byte {
+	var out [20]byte
+	for k := 0; k < 3; k++ {
+		h := uint64(14695981039346656037) + uint64(k)*0x9E3779B97F4A7C15
+		for _, c := range data {
+			h ^= uint64(c)
+			h *= 1099511628211
+		}
+		for i := 0; i < 8 && k*8+i < 20; i++ {
+			out[k*8+i] = byte(h >> (8 * uint(i)))
+		}
+	}
+	return out
 }
